@@ -10,6 +10,10 @@ T  copy order: translate/c33_copyorder.py extracts the CopyList order, the tree 
    user_model.cc / user_objects.cc / user_mesh.cc on every run; the hypothesis kindOK of copy_lossless is evaluated on them
    (plus the edges of the generated specs) by the Lean driver, and the model's per-kind surviving-element counts are compared
    with mj_copySpec of the tree (copy taken before and after the first compile) on every generated spec.
+T  LengthRange partition: translate/c33_lrslices.py extracts the per-thread count, the slice start / length and the LRfunc loop
+   of the threaded branch of mjCModel::LengthRange as integer expressions on every run; the slices they give must be those of
+   the Lean model Model/LRSlices.lean (lr_slices_partition: every actuator index is visited by exactly one worker) on an
+   exhaustive grid of (nactuator, actuators needing work, threads).
 T  schedule replay: the UNMODIFIED user_threadpool.cc is compiled against a controlled-scheduler shim
    (harness/cc/c33_sched_shim.h: std::mutex / unique_lock / lock_guard / condition_variable / thread replaced through
    `#define std c33std`) and driven by the same schedule tokens as the Lean model; the event traces (lock, unlock, wait
@@ -21,7 +25,10 @@ S  (a) the traces of the implementation alone: every task executed exactly once,
        mj_copyModel, usethread on/off with several procedural meshes and textures, mj_recompile state preservation
        (unchanged spec, body added, stateful actuator added, body deleted) — bitwise comparison of every mjModel array and
        of the mj_saveModel byte stream.  The specs carry every element kind the mjSpec API can build without files or
-       plugins and every kind of cross-reference between them (class Rich: each feature is forced at least once per run).
+       plugins and every kind of cross-reference between them (class Rich: each feature is forced at least once per run);
+       a second family of specs (gen_lr_case) makes the threaded mjCModel::LengthRange run: limited joints, 2..T+1 actuators
+       that need a length-range computation (T = compiler threads) mixed with motors / muscles that have a range, trailing /
+       leading / interleaved / shuffled, under the lengthrange modes none / muscle / muscleuser / all, useexisting, uselimit.
 """
 import itertools
 import json
@@ -36,15 +43,15 @@ USES_GEN = False
 
 META = {
     "technique": "Lean 4 proof (inductive invariant over a transition system with one transition per critical section; 12 transition kinds incl. spurious wake-ups and adversarial notify_one) + exact replay correspondence of the unmodified user_threadpool.cc under a controlled scheduler shim + Lean proof that a topologically ordered CopyList sequence loses no element, its hypothesis evaluated on the order / reference edges extracted from the source on every run, element-survival correspondence with mj_copySpec + bitwise compile-determinism oracle through the mjSpec C API on specs with every element kind and reference edge",
-    "text": "For the model of ThreadPool in the compiler's usage pattern (construct N >= 1 workers, Schedule T tasks, WaitCount(T), destructor), for all N, T and every interleaving including spurious condition-variable wake-ups and any choice of the thread woken by each notify_one: no task body ever runs twice and no unscheduled task runs; once WaitCount(T) has returned every one of the T tasks has run exactly once, to completion, on the one worker thread that popped it (pool_exactly_once); ctr_ counts finished tasks plus exited workers and WaitCount cannot return before all T tasks are popped (pool_counter); without spurious wake-ups and whichever waiter notify_one picks, some thread can always take a step until the destructor has returned — WaitCount cannot block forever, no wake-up is lost, every join becomes enabled (pool_deadlock_free); when the destructor has returned all workers have exited and the queue is empty (pool_done_clean); a ranking function strictly decreases on every such transition, so no run is longer than 6N + 7T + 4 transitions (pool_bounded_runs) and every run that cannot be extended has returned from the destructor with all T tasks executed exactly once and all workers exited (pool_terminates). Tasks that only replace their own slot of an asset array give the same array under every permutation of the execution order, and any order in which each task < T runs exactly once yields slot i = f_i(old slot i) (asset_tasks_schedule_independent, asset_result_exactly_once). For the model of the deep copy behind mj_copySpec (tree elements copied unconditionally, then one CopyList per non-tree list in a fixed order, each keeping an element iff all its references resolve among the tree elements, the lists copied before and the earlier elements of its own list): if every reference edge between different element kinds goes to a tree kind or to a kind copied strictly earlier (kindOK order tree edges) then, for every source spec whose references use only these edges, name existing elements and are backward inside a list, the copy holds the tree elements followed by every source list whole and in order (copy_lossless), in particular every element (copy_keeps_every_element).",
-    "note": "Partial by design: the compiler itself (what a mesh / texture task computes, CopyFromSpec, the element copy constructors, mj_recompile) is NOT modelled; of the deep copy only WHICH elements survive is modelled (an element = kind, name, referenced (kind, name) pairs; the tree copy by the mjCBody copy constructor, plugins, defaults and keyframe resizing are not), tied to the source by text extraction of the CopyList order / ResetTreeLists / the mjOBJ_* constants reaching FindObject in each ResolveReferences (sensor and tuple look-ups have a free kind: their edges are the ones of the generated specs) and by comparing the surviving-element counts with mj_copySpec on every generated spec; kindOK does NOT hold for the order of the tree: the edges sensor->tuple, sensor->key, tuple->key are against it and forward references inside tuples_ / sensors_ are lost as well — these are genuine losses of mj_copySpec, reproduced on dedicated specs on every run and recorded in known_findings.json (c33:copy-order:*); a further edge against the order is a violation; that mesh and texture tasks write only their own asset is an assumption of asset_tasks_schedule_independent (the exception_ptr / warning-text slots are per-task or mutex-protected in the source, not modelled). One model transition = one critical section (all shared state of ThreadPool is accessed under m_); the hand-written model is tied to the source by replaying identical schedules on the unmodified user_threadpool.cc under the shim (exhaustive short schedules for small N, T + seeded random schedules with picks and spurious wake-ups) — the shim replaces the standard mutex/condition-variable/thread classes, so the memory-model aspects of the real primitives are outside the tie; real-thread runs with random yields check only the observable outcome. With spurious wake-ups runs are not bounded (a waiter may wake spuriously forever), so termination is proved for the relation without them only. Apart from element survival, determinism / copy-invariance of compilation is sampled by the oracle only (bitwise over all mjModel arrays); that a spec edited after a compile is recompiled faithfully (e.g. mjCFrame::Compile keeps the pose of the first compile) is not part of this property — the original, its deep copy and mj_recompile agree; src/xml is stubbed, so specs are built through the mjSpec C API; qhull is stubbed, so mesh geoms are non-colliding (no convex hulls) and builtin cone / wedge meshes cannot be compiled; the LengthRange pool use is not exercised.",
+    "text": "For the model of ThreadPool in the compiler's usage pattern (construct N >= 1 workers, Schedule T tasks, WaitCount(T), destructor), for all N, T and every interleaving including spurious condition-variable wake-ups and any choice of the thread woken by each notify_one: no task body ever runs twice and no unscheduled task runs; once WaitCount(T) has returned every one of the T tasks has run exactly once, to completion, on the one worker thread that popped it (pool_exactly_once); ctr_ counts finished tasks plus exited workers and WaitCount cannot return before all T tasks are popped (pool_counter); without spurious wake-ups and whichever waiter notify_one picks, some thread can always take a step until the destructor has returned — WaitCount cannot block forever, no wake-up is lost, every join becomes enabled (pool_deadlock_free); when the destructor has returned all workers have exited and the queue is empty (pool_done_clean); a ranking function strictly decreases on every such transition, so no run is longer than 6N + 7T + 4 transitions (pool_bounded_runs) and every run that cannot be extended has returned from the destructor with all T tasks executed exactly once and all workers exited (pool_terminates). Tasks that only replace their own slot of an asset array give the same array under every permutation of the execution order, and any order in which each task < T runs exactly once yields slot i = f_i(old slot i) (asset_tasks_schedule_independent, asset_result_exactly_once). For the model of the deep copy behind mj_copySpec (tree elements copied unconditionally, then one CopyList per non-tree list in a fixed order, each keeping an element iff all its references resolve among the tree elements, the lists copied before and the earlier elements of its own list): if every reference edge between different element kinds goes to a tree kind or to a kind copied strictly earlier (kindOK order tree edges) then, for every source spec whose references use only these edges, name existing elements and are backward inside a list, the copy holds the tree elements followed by every source list whole and in order (copy_lossless), in particular every element (copy_keeps_every_element). For the work partition of the threaded LengthRange (num = nactuator / nthread, incremented while num * nthread < nactuator; worker i visits the indices of [i*num, i*num + num) below nactuator): for every nactuator and every nthread >= 1, num * nthread >= nactuator (lr_per_thread_covers), every actuator index lies in the slice of exactly one worker and no worker visits an index >= nactuator (lr_slices_partition) — the threaded compile calls mj_setLengthRange for exactly the actuators the serial loop visits.",
+    "note": "Partial by design: the compiler itself (what a mesh / texture task computes, CopyFromSpec, the element copy constructors, mj_recompile) is NOT modelled; of the deep copy only WHICH elements survive is modelled (an element = kind, name, referenced (kind, name) pairs; the tree copy by the mjCBody copy constructor, plugins, defaults and keyframe resizing are not), tied to the source by text extraction of the CopyList order / ResetTreeLists / the mjOBJ_* constants reaching FindObject in each ResolveReferences (sensor and tuple look-ups have a free kind: their edges are the ones of the generated specs) and by comparing the surviving-element counts with mj_copySpec on every generated spec; kindOK does NOT hold for the order of the tree: the edges sensor->tuple, sensor->key, tuple->key are against it and forward references inside tuples_ / sensors_ are lost as well — these are genuine losses of mj_copySpec, reproduced on dedicated specs on every run and recorded in known_findings.json (c33:copy-order:*); a further edge against the order is a violation; that mesh and texture tasks write only their own asset is an assumption of asset_tasks_schedule_independent (the exception_ptr / warning-text slots are per-task or mutex-protected in the source, not modelled). One model transition = one critical section (all shared state of ThreadPool is accessed under m_); the hand-written model is tied to the source by replaying identical schedules on the unmodified user_threadpool.cc under the shim (exhaustive short schedules for small N, T + seeded random schedules with picks and spurious wake-ups) — the shim replaces the standard mutex/condition-variable/thread classes, so the memory-model aspects of the real primitives are outside the tie; real-thread runs with random yields check only the observable outcome. With spurious wake-ups runs are not bounded (a waiter may wake spuriously forever), so termination is proved for the relation without them only. Apart from element survival, determinism / copy-invariance of compilation is sampled by the oracle only (bitwise over all mjModel arrays); that a spec edited after a compile is recompiled faithfully (e.g. mjCFrame::Compile keeps the pose of the first compile) is not part of this property — the original, its deep copy and mj_recompile agree; src/xml is stubbed, so specs are built through the mjSpec C API; qhull is stubbed, so mesh geoms are non-colliding (no convex hulls) and builtin cone / wedge meshes cannot be compiled; of mjCModel::LengthRange only the index partition of the threaded branch is modelled (what mj_setLengthRange computes, the per-thread mjData and the error reporting are not), tied to the source by text extraction of the integer expressions and comparison of the resulting slices with the Lean model on an exhaustive small grid; that the threaded branch gives the same model is then sampled bitwise on specs where it runs (needs >= 4 hardware threads; the number of compiler threads of the machine is recorded in lengthrange_cases).",
 }
 
 P = "MjProof.C33."
 THEOREMS = [P + t for t in ("pool_exactly_once", "pool_counter", "pool_deadlock_free", "pool_done_clean",
                             "pool_bounded_runs", "pool_terminates",
                             "asset_tasks_schedule_independent", "asset_result_exactly_once",
-                            "copy_lossless", "copy_keeps_every_element")]
+                            "copy_lossless", "copy_keeps_every_element", "lr_per_thread_covers", "lr_slices_partition")]
 
 
 # ------------------------------------------------------------------------------------------ schedules
@@ -680,6 +687,95 @@ def gen_case(rng, thorough, focus=(), late=None):
     return text, nmesh, ntex, used, ref_table(lines, extras, ntex)
 
 
+def gen_lr_case(rng, hw_threads, force=None):
+    """a spec made for mjCModel::LengthRange: limited joints (so the length-range simulation converges) and a sequence of
+    actuators of which some need a length-range computation (muscles without a range) and some do not (motors, muscles
+    with a range) — counts and positions around the slice boundaries of the threaded branch.
+    Returns (text, info) with info = n, cnt (actuators needing work), nthread, kinds, options."""
+    J, G = lambda t: E("mjJNT_" + t), lambda t: E("mjGEOM_" + t)
+    L, X, h = [], [], [1]
+
+    def newh():
+        h[0] += 1
+        return h[0] - 1
+    L += ["option timestep 0.004", "option integrator %d" % E("mjINT_EULER")]
+    nj = rng.randint(2, 5)
+    joints, parent = [], 0
+    for i in range(nj):
+        bh, jh, gh = newh(), newh(), newh()
+        chain = rng.random() < 0.4 and parent
+        L += ["body %d %d" % (bh, parent if chain else 0), "name %d lb%d" % (bh, i),
+              "set %d pos %r %r %r" % (bh, 0.25 if chain else 0.6 * i, 0.0 if chain else 1.0, 0.0 if chain else 1.0),
+              "joint %d %d" % (jh, bh), "name %d lj%d" % (jh, i), "set %d type %d" % (jh, J(rng.choice(("HINGE", "HINGE", "SLIDE")))),
+              "set %d axis 0 1 0" % jh, "set %d limited %d" % (jh, E("mjLIMITED_TRUE")),
+              "set %d range %r %r" % (jh, -rng.uniform(0.3, 0.9), rng.uniform(0.3, 1.1)),
+              "geom %d %d" % (gh, bh), "set %d type %d" % (gh, G("CAPSULE")), "set %d size 0.03 0.1" % gh,
+              "set %d contype 0" % gh, "set %d conaffinity 0" % gh]
+        joints.append("lj%d" % i)
+        parent = bh
+    tendon = None
+    if rng.random() < 0.4:
+        th = newh()
+        a, b = rng.sample(joints, 2)
+        L += ["tendon %d" % th, "name %d lt0" % th, "wrap %d joint %s 1.0" % (th, a), "wrap %d joint %s -0.5" % (th, b),
+              "set %d limited %d" % (th, E("mjLIMITED_TRUE")), "set %d range -0.4 0.6" % th]
+        tendon = "lt0"
+    mode = rng.choice(("MUSCLE",) * 7 + ("ALL", "ALL", "MUSCLEUSER", "NONE"))
+    useexisting = 0 if rng.random() < 0.12 else 1
+    uselimit = 1 if rng.random() < 0.3 else 0
+    # the sequence of actuator kinds: w = needs work (muscle without range), m = motor, e = muscle with an existing range
+    cnt_t = force[1] if force else rng.choice((2, 2, 3, 4, 5, 7, 8, 9, 10, hw_threads, hw_threads + 1))
+    rest = force[2] if force else rng.choice((0, 1, 2, 3, 4, 6, 9))
+    pattern = force[0] if force else rng.choice(("trailing", "leading", "interleaved", "random", "random"))
+    others = [rng.choice("mme") for _ in range(rest)]
+    if pattern == "trailing":
+        kinds = others + ["w"] * cnt_t
+    elif pattern == "leading":
+        kinds = ["w"] * cnt_t + others
+    elif pattern == "interleaved":
+        kinds, o = [], list(others)
+        for _ in range(cnt_t):
+            kinds.append("w")
+            if o:
+                kinds.append(o.pop())
+        kinds = o + kinds
+    else:
+        kinds = others + ["w"] * cnt_t
+        rng.shuffle(kinds)
+    musc = "0.75 1.05 %r 200 0.5 1.6 1.5 1.3 1.2"
+    for i, kd in enumerate(kinds):
+        ah = newh()
+        on_tendon = tendon and uselimit and rng.random() < 0.3    # (the simulated range of a tendon over coupled joints may not converge)
+        L += ["actuator %d" % ah, "name %d la%d" % (ah, i),
+              "set %d trntype %d" % (ah, E("mjTRN_TENDON") if on_tendon else E("mjTRN_JOINT")),
+              "set %d target %s" % (ah, tendon if on_tendon else rng.choice(joints))]
+        if kd in "we":
+            prm = musc % rng.choice((-1.0, rng.uniform(20, 200)))
+            L += ["set %d dyntype %d" % (ah, E("mjDYN_MUSCLE")), "set %d gaintype %d" % (ah, E("mjGAIN_MUSCLE")),
+                  "set %d biastype %d" % (ah, E("mjBIAS_MUSCLE")), "set %d gainprm %s" % (ah, prm), "set %d biasprm %s" % (ah, prm),
+                  "set %d dynprm 0.01 0.04 0" % ah]
+            if kd == "e":
+                L.append("set %d lengthrange %r %r" % (ah, rng.uniform(0.1, 0.4), rng.uniform(0.6, 1.5)))
+        else:
+            L.append("set %d gear %r" % (ah, rng.uniform(0.5, 2)))
+    X.append("lropt %d %d %d %r %r" % (E("mjLRMODE_" + mode), useexisting, uselimit, 1.5, 0.3))
+    if rng.random() < 0.15:
+        L.append("compiler usethread 0")
+    # how many actuators need work under these options (mirrors the counting loop of LengthRange)
+    def needs(kd):
+        if mode == "NONE" or (mode in ("MUSCLE", "MUSCLEUSER") and kd == "m"):
+            return False
+        return not (useexisting and kd == "e")
+    cnt = sum(1 for kd in kinds if needs(kd))
+    info = {"n": len(kinds), "cnt": cnt, "nthread": max(1, min(hw_threads, cnt)) if cnt > 0 else max(1, hw_threads),
+            "kinds": "".join(kinds), "mode": mode, "useexisting": useexisting, "uselimit": uselimit, "pattern": pattern}
+    ntex = rng.choice((0, 0, 2))
+    head = "case %d %d %d x" % (ntex, rng.randint(1, 2 ** 31 - 1), rng.choice((0, 3)))
+    text = head + "\n" + "\n".join(L) + "\nend\n" + "".join(x + "\n" for x in X) + "xend\n"
+    info["usethread"] = 0 if "compiler usethread 0" in L else 1
+    return text, 0, ntex, ["lengthrange_" + pattern], ref_table(L, X, ntex), info
+
+
 def parse_counts(txt):
     return {} if txt in ("-", "") else {int(a): int(b) for a, b in (x.split(":") for x in txt.split(","))}
 
@@ -694,6 +790,52 @@ def copy_line(cm, table):
         words.append("%d:%d:%s" % (k, nm(k, n), "+".join("%d.%d" % (a, nm(a, b)) for a, b in rs)))
     csv = lambda xs: ",".join(str(x) for x in xs) or "-"
     return "copy %s | %s | %s" % (csv(cm["order"]), csv(cm["tree"]), " ".join(words)), {v: k for k, v in code.items()}
+
+
+def lr_tie(ctx, drv, hw):
+    """T for the work partition of the threaded LengthRange: the slices computed by the expressions extracted from the source
+    of the tree must be the slices of the Lean model (for which lr_slices_partition is proved), on an exhaustive grid."""
+    from translate import c33_copyorder, c33_lrslices
+    name = "extraction of the LengthRange work partition (num, slice start / length, LRfunc loop) from src/user/user_model.cc"
+    try:
+        ex = c33_lrslices.extract(common.REPO)
+        ctx.oblige(name, "translator", True)
+    except (c33_copyorder.ExtractError, OSError, SyntaxError) as e:
+        ctx.oblige(name, "translator", False, repr(e))
+        return
+    ctx.extra["lengthrange_partition_extracted"] = ex
+    if not drv:
+        return
+    NMAX, TMAX = (40, 16) if ctx.tier == "thorough" else (26, 10)
+    grid = [(n, cnt, t) for n in range(0, NMAX + 1) for t in range(2, TMAX + 1) for cnt in range(max(2, t), n + 1)
+            if cnt == n or cnt == t or cnt % 3 == 0]
+    lines = sorted({"lrslices %d %d" % (n, t) for n, cnt, t in grid})
+    rc, mo, err = ctx.run_lines([drv], lines)
+    if rc != 0 or len(mo) != len(lines) or "bad-op" in mo:
+        raise common.Infra("drv_c33 failed on lrslices: rc=%s %s" % (rc, err[-300:]))
+    model = dict(zip(lines, mo))
+    bad = []
+    try:
+        for n, cnt, t in grid:
+            num, sl = c33_lrslices.slices(ex, n, cnt, t)
+            got = "num=%d | %s" % (num, " ; ".join(",".join(str(k) for k in x) or "-" for x in sl))
+            want = model["lrslices %d %d" % (n, t)]
+            # the model's property (every index < n exactly once) is what matters; compare the visited indices per worker
+            if got.split(" | ")[1] != want.split(" | ")[1]:
+                bad.append({"n": n, "cnt": cnt, "nthread": t, "source": got, "model": want})
+    except c33_copyorder.ExtractError as e:
+        bad.append({"error": repr(e)})
+    for n, cnt, t in grid:
+        ctx.count(("lrslices", n, cnt, t))
+    ctx.oblige("correspondence LengthRange work partition: slices from the extracted source expressions vs Lean LRSlices.slices "
+               "(%d (n, cnt, nthread) triples, n <= %d, nthread <= %d)" % (len(grid), NMAX, TMAX), "correspondence", not bad,
+               json.dumps(bad[:4]))
+    if bad:
+        ctx.disagreements += [dict(stream="lrslices", line=str((b.get("n"), b.get("cnt"), b.get("nthread"))),
+                                   model=b.get("model"), impl=b.get("source")) for b in bad[:10]]
+        # name the actuators the threaded compile never visits, for the reader of the replay
+        miss = [b for b in bad if "n" in b and set(range(b["n"])) - {int(k) for x in b["source"].split(" | ")[1].split(" ; ") for k in x.split(",") if k != "-"}]
+        ctx.extra["lengthrange_partition_misses_indices"] = miss[:3]
 
 
 def compile_part(ctx, drv, comp):
@@ -725,6 +867,24 @@ def compile_part(ctx, drv, comp):
         for lt in LATE:
             cases.append(gen_case(rng, thorough, late=lt))
             nlate += 1
+    # ---- LengthRange: the other threaded path of the compiler
+    hw = max(1, len(os.sched_getaffinity(0)) // 2)          # NumCompilerThreads: hardware_concurrency() / 2
+    forced = [("trailing", 2, 4), ("trailing", hw, 3), ("leading", 3, 5), ("interleaved", hw + 1, 6), ("random", 2, 1)]
+    lr_cases = [gen_lr_case(rng, hw, force=f) for f in forced] + [gen_lr_case(rng, hw) for _ in range(80 if thorough else 5)]
+    lr_first = len(cases)
+    cases += [c[:5] for c in lr_cases]
+    lrh = {"threaded_path_runs": 0, "serial": 0, "n": {}, "cnt": {}, "pattern": {}, "mode": {}}
+    for c in lr_cases:
+        i = c[5]
+        runs = i["usethread"] and i["cnt"] >= 2 and min(hw, i["cnt"]) >= 2
+        lrh["threaded_path_runs" if runs else "serial"] += 1
+        for k in ("n", "cnt", "pattern", "mode"):
+            lrh[k][str(i[k])] = lrh[k].get(str(i[k]), 0) + 1
+    lrh["compiler_threads"] = hw
+    ctx.extra["lengthrange_cases"] = lrh
+    if hw < 2:
+        ctx.assumptions.append("fewer than 4 hardware threads: the threaded branches of the compiler cannot run on this machine")
+    lr_tie(ctx, drv, hw)
     fh, eh = {}, {}
     for c in cases:
         for f in c[3]:
@@ -858,7 +1018,8 @@ def run(ctx):
                 "notify picks, spurious wake-ups and non-existent thread ids; real-thread `free` runs); compile: generated specs "
                 "with 0-6 procedural meshes and 0-8 builtin textures plus elements of every kind / reference edge (31 features, each "
                 "forced at least once per run, histogram in compile_case_features / reference_edges_generated) and one spec per "
-                "known-lossy reference; a case is distinct by its full text; non-trivial = accepted op")
+                "known-lossy reference; LengthRange specs (pattern x count of actuators needing work x others, histogram in lengthrange_cases) and "
+                "the (n, cnt, nthread) grid of the partition tie; a case is distinct by its full text; non-trivial = accepted op")
     ctx.lean_props(THEOREMS)
     drv = ctx.driver("drv_c33")
     # the harness TU #includes the tree's user_threadpool.cc: it is part of the cache key
